@@ -133,8 +133,8 @@ func handleMGet(params internal.HandlerFuncParams) ([]byte, error) {
 
 	values := make(map[string]string)
 	for key, value := range params.GetValues(params.Context, keys.ReadKeys) {
+		// A key that holds no value gets no entry: only such keys are reported as nil below.
 		if value == nil {
-			values[key] = ""
 			continue
 		}
 		values[key] = fmt.Sprintf("%v", value)
@@ -143,11 +143,12 @@ func handleMGet(params internal.HandlerFuncParams) ([]byte, error) {
 	bytes := []byte(fmt.Sprintf("*%d\r\n", len(params.Command[1:])))
 
 	for _, key := range params.Command[1:] {
-		if values[key] == "" {
+		value, ok := values[key]
+		if !ok {
 			bytes = append(bytes, []byte("$-1\r\n")...)
 			continue
 		}
-		bytes = append(bytes, []byte(fmt.Sprintf("$%d\r\n%s\r\n", len(values[key]), values[key]))...)
+		bytes = append(bytes, []byte(fmt.Sprintf("$%d\r\n%s\r\n", len(value), value))...)
 	}
 
 	return bytes, nil
